@@ -22,11 +22,13 @@ package parentpb
 //@
 //@ func (*ModelServer).ListChildren(ctx, request) (resp, err)
 //@   requires recv != nil && recv.model != nil && request != nil
-//@   ensures [negative] request.PageSize < 0 ==> err != nil
+//@   ensures [negative] old(request.PageSize) < 0 ==> err != nil
 //@   ensures [total] err == nil && len(all) <= 2147483647 ==> resp.TotalSize == len(all)
 //@   ensures [page] err == nil ==> 0 <= nextIndex && nextIndex <= upperBound && upperBound <= len(all) && resp.Children == all[nextIndex:upperBound]
-//@   ensures [size] err == nil ==> 1 <= pageSize && pageSize <= 1000 && (request.PageSize == 0 ==> pageSize == 50) && upperBound - nextIndex <= pageSize && (upperBound == len(all) || upperBound - nextIndex == pageSize)
+//@   ensures [size] err == nil ==> 1 <= pageSize && pageSize <= 1000 && (old(request.PageSize) == 0 ==> pageSize == 50) && upperBound - nextIndex <= pageSize && (upperBound == len(all) || upperBound - nextIndex == pageSize)
 //@   ensures [last-page] err == nil && nextIndex + pageSize > len(all) ==> resp.NextPageToken == ""
 //@   replay ParentListChildren(request.PageSize)
 //@   loop 0 (k):
 //@     invariant 0 <= k && k <= upperBound - nextIndex
+//@     invariant result.Children == pre(result.Children) && result.TotalSize == pre(result.TotalSize) && result.NextPageToken == pre(result.NextPageToken)
+//@     invariant forall j int :: k <= j && j < upperBound - nextIndex ==> result.Children[j] != nil
